@@ -41,6 +41,9 @@ func runC05(r *Run) {
 	if r.Want("backlog") && r.NumViolations() == 0 {
 		c05Backlog(r)
 	}
+	if r.NumViolations() == 0 {
+		c05LongBacklog(r)
+	}
 	// concurrent unary calls with payloads up to 64 KiB and forced completion orders of the worker pool
 	// (the C01 pairing rounds): no caller may be handed bytes of another call's reply
 	if r.Want("pairing") && r.NumViolations() == 0 {
